@@ -33,7 +33,7 @@ theorem vlanId_eq_vid (h : Bytes) : vlanId h = vid h := by
 theorem isExt_imp_v6ext (h : UInt8) (hx : isExtHdr h = true) : isV6Extension h = true := by
   simp only [isExtHdr, Bool.or_eq_true, beq_iff_eq] at hx
   simp only [isV6Extension, Bool.or_eq_true, beq_iff_eq]
-  rcases hx with ((((((h0 | h0) | h0) | h0) | h0) | h0) | h0) | h0 <;> simp [h0]
+  rcases hx with (((((h0 | h0) | h0) | h0) | h0) | h0) | h0 <;> simp [h0]
 
 theorem walkExt_not_ext (fuel : Nat) (cur : UInt8) (b : Bytes) (h : isExtHdr cur = false) :
     walkExt fuel cur b = .ok (some b) := by
